@@ -13,7 +13,9 @@ FormDefs == [Fm1 |-> [m |-> <<2, 0, 0, 2, 10, 10>>, own |-> TRUE, xo |-> <<>>, f
                                  N(0), N(0), N(5), N(5), Op("re"), Op("f"), N(3), N(0), N(0), N(3), N(0), N(0), Op("cm")>>],
              Fm2 |-> [m |-> Ident, own |-> FALSE, xo |-> <<>>, fo |-> <<>>,
                       body |-> <<N(0), N(1), N(0), Op("rg"), N(2), Op("w"), Op("q"), Op("BT"), Nm("F1"), N(20), Op("Tf"), N(2), Op("Tc"),
-                                 Str(<<66, 65>>), Op("Tj"), Op("ET"), N(1), N(1), Op("m"), N(4), N(1), Op("l"), Op("S")>>],
+                                 Str(<<66, 65>>), Op("Tj"), Op("ET"), N(1), N(1), Op("m"), N(4), N(1), Op("l"), Op("S"),
+                                 \* (a form without /Matrix that changes the CTM and never restores it: none of the caller's business)
+                                 N(2), N(0), N(0), N(2), N(3), N(3), Op("cm")>>],
              \* (in Fm3 the NAME F1 means another font, F1b: same /BaseFont, other widths, written as a direct dictionary)
              \* nesting and name scoping: Fm3 has its own resources in which the NAME Fm1 means another form (Fm4), its own
              \* name Fm3 means Fm4 too (not a recursion: names are local to a resource dictionary), and Fm2 is not visible; Fm4 has no resources of its own, so inside it Fm1 still means Fm4's sibling entry
@@ -45,7 +47,7 @@ GPath == { Ins("m", <<N(0), N(0)>>), Ins("l", <<N(5), N(0)>>), Ins("l", <<N(5), 
 GPathCtm == { Ins("cm", <<N(0), N(1), N(-1), N(0), N(3), N(0)>>), Ins("cm", <<N(1), N(1), N(0), N(1), N(0), N(0)>>),
               Ins("re", <<N(1), N(1), N(4), N(3)>>), Ins("m", <<N(0), N(0)>>) \o Ins("l", <<N(5), N(0)>>),
               Ins("l", <<N(5), N(4)>>) \o Ins("l", <<N(0), N(4)>>), Ins("l", <<N(0), N(0)>>), <<Op("h")>>,
-              <<Op("B*")>>, <<Op("s")>>, <<Op("q")>>, <<Op("Q")>>, Ins("w", <<N(2)>>), Ins("d", <<Arr(<<N(2), N(1)>>), N(0)>>),
+              <<Op("B*")>>, <<Op("s")>>, <<Op("q")>>, <<Op("Q")>>, Ins("w", <<N(3)>>), Ins("d", <<Arr(<<N(4), N(1)>>), N(3)>>),
               Ins("v", <<N(1), N(2), N(3), N(4)>>), Ins("y", <<N(1), N(2), N(3), N(4)>>) }
 \* every painting operator after every kind of (possibly open, possibly empty) path
 GPaint == { Ins("m", <<N(0), N(0)>>) \o Ins("l", <<N(5), N(0)>>) \o Ins("l", <<N(5), N(4)>>), Ins("re", <<N(1), N(1), N(4), N(3)>>),
